@@ -5,7 +5,7 @@ from checklib.main import Stream
 def hx(s): return s.encode().hex()
 LEVELS = {1: 'ERROR', 2: 'WARN', 3: 'INFO', 4: 'DEBUG', 5: 'TRACE'}
 TARGETS = ['app', 'application', 'app::db', 'app::db::pool', 'other', '', 'ap']
-NAMES = ['a', 'b', 'c', 'message', 'thread', 'seq', 'pad', 'boom']
+NAMES = ['a', 'b', 'c', 'login', 'logged', 'message', 'thread', 'seq', 'pad', 'boom']
 WORDS = ['hello', 'x y', 'v-1.2', 'ok_then', 'Zed', '42abc']
 
 def gen_w(rng, depth, next_sink):
@@ -24,7 +24,8 @@ def gen_w(rng, depth, next_sink):
 
 def gen_fields(rng, allow_message=True):
     n = rng.choice([0, 1, 1, 2, 3])
-    names = rng.sample(['a', 'b', 'c'] + (['message'] if allow_message else []), n)
+    # (names that merely BEGIN with `log`: only the `log.` fields of bridged log records are metadata, not these)
+    names = rng.sample(['a', 'b', 'c', 'login', 'logged'] + (['message'] if allow_message else []), n)
     out = []
     for nm in names:
         r = rng.random()
